@@ -235,60 +235,100 @@ def run(rep: vk.Report):
         except Exception as ex:
             errors["gen:" + type(ex).__name__] = errors.get("gen:" + type(ex).__name__, 0) + 1
             continue
-        P = Problem()
-        mx = r.random() < 0.5
-        (P.maximize if mx else P.minimize)(obj)
-        for v in obj.get_variables():
+        def do(obj, cons, r, mx=None):
+            nonlocal unsupported, bounds_bad
+            P = Problem()
+            mx = (r.random() < 0.5) if mx is None else mx
+            (P.maximize if mx else P.minimize)(obj)
+            for v in obj.get_variables():
+                if r.random() < 0.5:
+                    v.lb = r.choice([None, 0, 0.0, -0.0, -1.5, 2])
+                    v.ub = r.choice([None, 0, 0.0, -0.0, 3.5, 10])
+                    if v.lb is not None and v.ub is not None and v.lb > v.ub:
+                        v.lb = None
             if r.random() < 0.5:
-                v.lb = r.choice([None, 0, 0.0, -0.0, -1.5, 2])
-                v.ub = r.choice([None, 0, 0.0, -0.0, 3.5, 10])
-                if v.lb is not None and v.ub is not None and v.lb > v.ub:
-                    v.lb = None
-        if r.random() < 0.5:
-            _ = P.n_variables, P.variables           # the variable list exists BEFORE the constraints arrive
-            hist["variables-read-before-constraints"] = hist.get("variables-read-before-constraints", 0) + 1
-        if cons:
-            if r.random() < 0.5 and len(cons) >= 2:
-                # a list whose FIRST element brings variables the objective does not mention, the last one only known ones
-                cons = sorted(cons, key=lambda c: -len(c.get_variables() - obj.get_variables()))
-            P.subject_to(cons)
-        try:
-            d = LinearProgramExtractor().extract(P)
-            per = [extract_linear_coefficient(obj, v) for v in P.variables]
-        except ZeroDivisionError:
-            continue
-        except Exception as ex:
-            errors[type(ex).__name__] = errors.get(type(ex).__name__, 0) + 1
-            rep.violation({"kind": "exception", "obligation": "extraction total on linear problems", "error": repr(ex)[:400],
-                           "objective": repr(obj)[:400]}, concrete=True)
-            continue
-        S = ser.Ser()
-        try:
-            tobj = S.expr(obj)
-            tcons = [f"({S.expr(c.expr)}, {SENSE[c.sense]})" for c in P.constraints]
-        except ser.Unsupported:
-            unsupported += 1
-            continue
-        ql = lambda arr: ser.lst(ser.q(float(v)) for v in arr)
-        qm = lambda M: ser.lst(ql(row) for row in M) if M is not None else "[]"
-        qv = lambda v: ql(v) if v is not None else "[]"
-        declared = [(None if v.lb is None else float(v.lb), None if v.ub is None else float(v.ub)) for v in P.variables]
-        got_b = [(None if b[0] is None or not np.isfinite(b[0]) else float(b[0]), None if b[1] is None or not np.isfinite(b[1]) else float(b[1]))
-                 for b in (d.bounds or [])]
-        if got_b != declared or [v.name for v in P.variables] != list(d.variables):
-            bounds_bad += 1
-            rep.violation({"kind": "correspondence", "obligation": "LPData.bounds / variables are the declared bounds of the problem's variables, in order",
-                           "witness": {"variables": [v.name for v in P.variables], "lp_variables": list(d.variables), "declared": declared,
-                                       "lp_bounds": got_b, "objective": repr(obj)[:200]}}, concrete=True)
-        if (d.sense == "max") != mx:
-            rep.violation({"kind": "sense", "obligation": "LPData.sense is the user's orientation", "got": d.sense, "maximize": mx}, concrete=True)
-        lpt = f"({ql(d.c)}, {ser.q(float(getattr(d, 'c0', 0.0)))}, {qm(d.A_ub)}, {qv(d.b_ub)}, {qm(d.A_eq)}, {qv(d.b_eq)})"
-        V = ser.lst(ser.s(nm) for nm in d.variables)
-        cases.add(f"({V}, {tobj}, {'true' if mx else 'false'}, {ser.lst(tcons)}, {lpt}, {ql(per)})",
-                  {"n_vars": len(d.variables), "n_cons": len(P.constraints), "maximize": mx})
-        keep.append((P, d))
-        for c in P.constraints:
-            forms[c.sense] = forms.get(c.sense, 0) + 1
+                _ = P.n_variables, P.variables           # the variable list exists BEFORE the constraints arrive
+                hist["variables-read-before-constraints"] = hist.get("variables-read-before-constraints", 0) + 1
+            if cons:
+                if r.random() < 0.5 and len(cons) >= 2:
+                    # a list whose FIRST element brings variables the objective does not mention, the last one only known ones
+                    cons = sorted(cons, key=lambda c: -len(c.get_variables() - obj.get_variables()))
+                P.subject_to(cons)
+            try:
+                d = LinearProgramExtractor().extract(P)
+                per = [extract_linear_coefficient(obj, v) for v in P.variables]
+            except ZeroDivisionError:
+                return None
+            except Exception as ex:
+                errors[type(ex).__name__] = errors.get(type(ex).__name__, 0) + 1
+                rep.violation({"kind": "exception", "obligation": "extraction total on linear problems", "error": repr(ex)[:400],
+                               "objective": repr(obj)[:400]}, concrete=True)
+                return None
+            S = ser.Ser()
+            try:
+                tobj = S.expr(obj)
+                tcons = [f"({S.expr(c.expr)}, {SENSE[c.sense]})" for c in P.constraints]
+            except ser.Unsupported:
+                unsupported += 1
+                return None
+            ql = lambda arr: ser.lst(ser.q(float(v)) for v in arr)
+            qm = lambda M: ser.lst(ql(row) for row in M) if M is not None else "[]"
+            qv = lambda v: ql(v) if v is not None else "[]"
+            declared = [(None if v.lb is None else float(v.lb), None if v.ub is None else float(v.ub)) for v in P.variables]
+            got_b = [(None if b[0] is None or not np.isfinite(b[0]) else float(b[0]), None if b[1] is None or not np.isfinite(b[1]) else float(b[1]))
+                     for b in (d.bounds or [])]
+            if got_b != declared or [v.name for v in P.variables] != list(d.variables):
+                bounds_bad += 1
+                rep.violation({"kind": "correspondence", "obligation": "LPData.bounds / variables are the declared bounds of the problem's variables, in order",
+                               "witness": {"variables": [v.name for v in P.variables], "lp_variables": list(d.variables), "declared": declared,
+                                           "lp_bounds": got_b, "objective": repr(obj)[:200]}}, concrete=True)
+            if (d.sense == "max") != mx:
+                rep.violation({"kind": "sense", "obligation": "LPData.sense is the user's orientation", "got": d.sense, "maximize": mx}, concrete=True)
+            lpt = f"({ql(d.c)}, {ser.q(float(getattr(d, 'c0', 0.0)))}, {qm(d.A_ub)}, {qv(d.b_ub)}, {qm(d.A_eq)}, {qv(d.b_eq)})"
+            V = ser.lst(ser.s(nm) for nm in d.variables)
+            cases.add(f"({V}, {tobj}, {'true' if mx else 'false'}, {ser.lst(tcons)}, {lpt}, {ql(per)})",
+                      {"n_vars": len(d.variables), "n_cons": len(P.constraints), "maximize": mx})
+            keep.append((P, d))
+            for c in P.constraints:
+                forms[c.sense] = forms.get(c.sense, 0) + 1
+            return P, mx
+        done = do(obj, cons, r)
+        if done is not None and cons and r.random() < 0.45:
+            # model VARIANTS that share expression / constraint OBJECTS with the problem just extracted (scenario studies): the same
+            # objects must be extracted afresh for the new column layout
+            P0, mx0 = done
+            from optyx import Variable as _Var
+            Vp = list(P0.variables)
+            cvars = set()
+            for c_ in cons:
+                cvars |= set(v.name for v in c_.get_variables())
+            kind = r.randrange(3)
+            try:
+                if kind == 0 and len(Vp) >= 2:
+                    # same number of columns, same first column, one objective-only variable replaced by one that sorts elsewhere
+                    cand = [v for v in Vp[1:] if v.name not in cvars] or [v for v in Vp if v.name not in cvars]
+                    if cand:
+                        u = r.choice(cand)
+                        new_ = _Var(r.choice(["zz_new", "m_new", Vp[0].name + "_0new"]))
+                        obj2 = new_ * r.choice([1.5, -2.0, 0.5])
+                        for j_, v in enumerate(Vp):
+                            if v is not u:
+                                obj2 = obj2 + float((j_ % 4) + 1) * v
+                        obj2 = obj2 + 1.0
+                        streams["variant:replaced-variable"] = streams.get("variant:replaced-variable", 0) + 1
+                        do(obj2, cons, r, mx0)
+                elif kind == 1:
+                    # the same objective OBJECT, the same constraint objects, one more constraint bringing a variable that sorts first / in between
+                    new_ = _Var(r.choice(["a_0new", "m_new", "zz_new", Vp[0].name + "_0new"]))
+                    streams["variant:extra-constraint"] = streams.get("variant:extra-constraint", 0) + 1
+                    do(obj, list(cons) + [new_ + 2.0 * Vp[-1] <= 7.0], r, mx0)
+                else:
+                    # the constraint objects under a fresh objective over other variables
+                    obj2 = linear_expr(g)
+                    streams["variant:other-objective"] = streams.get("variant:other-objective", 0) + 1
+                    do(obj2, cons, r, not mx0)
+            except Exception as ex:
+                errors["variant:" + type(ex).__name__] = errors.get("variant:" + type(ex).__name__, 0) + 1
     fails = cases.run(shard=150)
     for i in fails:
         P, d = keep[i]
